@@ -1,9 +1,12 @@
 (* C17 proofs: entry point re-exporting the parts.
-     HashGenOk      generated constants = standard tables
+     HashGenOk      generated constants = standard tables (Gen_hash_ok)
      HashGeneric    buffered Merkle-Damgard absorption, checked array operations
      HashCount      32+32-bit bit counters and byte-index masks
      HashCompress   model compression functions = specification compression functions
      HashTomProofs  buffering/padding of sha256.c / sha512.c (generic in the block size)
-     HashSha2       SHA-256 / SHA-512 theorems *)
+     HashSha2       SHA-256 / SHA-512 theorems
+     HashSha1       SHA-1 theorems
+     HashMd5        MD5 theorems
+     HashHmac       crypto_HMAC = RFC 2104; xmpp_sha1_* API *)
 Require Export LV.Proofs.HashGenOk LV.Proofs.HashGeneric LV.Proofs.HashCount LV.Proofs.HashCompress
-               LV.Proofs.HashTomProofs LV.Proofs.HashSha2.
+               LV.Proofs.HashTomProofs LV.Proofs.HashSha2 LV.Proofs.HashSha1 LV.Proofs.HashMd5 LV.Proofs.HashHmac.
